@@ -96,6 +96,10 @@ func (share *Share) Verify(ec elliptic.Curve, threshold int, vs Vs) bool {
 	if share.Threshold != threshold || vs == nil || len(vs) != threshold+1 {
 		return false
 	}
+	// a share that is 0 mod q would map to the point at infinity below
+	if share.Share == nil || new(big.Int).Mod(share.Share, ec.Params().N).Sign() == 0 {
+		return false
+	}
 	var err error
 	modQ := common.ModInt(ec.Params().N)
 	v, t := vs[0], one // YRO : we need to have our accumulator outside of the loop
